@@ -29,6 +29,23 @@ BASE = {
 }
 
 
+THOROUGH = {"max_steps": 30, "Nmax": 6, "Mmax": 3, "degmax": 4, "nx_max": 4, "nu_max": 3, "np_max": 4, "nv_max": 3, "p_two_actors": 0.3,
+            "localize": True, "freegrid": True}
+
+
+def base_cfg(prop):
+    """per-property base configuration; the thorough tier explores deeper bounds"""
+    import os
+
+    cfg = dict(BASE[prop])
+    if os.environ.get("RSIM_TIER") == "thorough":
+        for k, v in THOROUGH.items():
+            if k in ("np_max",) and prop == "C09":
+                v = 5
+            cfg[k] = v
+    return cfg
+
+
 def configure_world(w, prop):
     from . import oracles
 
